@@ -209,6 +209,12 @@ def restore_regions(ctx, rule):
     A = None
     if amax and len(aloops) == 1:
         loop, pos, item, src, start = aloops[0]
+        for g_ in loop.body:
+            if isinstance(g_, ast.If) and 'prob' not in U(g_.test) and amax not in U(g_.test) \
+                    and any(isinstance(x, ast.Return) for b__ in g_.body + g_.orelse for x in ast.walk(b__)):
+                ctx.bad(rule, aq, 'a position is skipped by returning: if %s: %s' % (U(g_.test)[:40], U(g_.body[-1])[:30]),
+                        'a position without a parent (index 0) says nothing about the positions to its right: the loop must go on', None, g_, firm=True)
+                return None
         brk_ = [x for b_ in loop.body for x in ast.walk(b_) if isinstance(x, ast.Break)]
         if brk_:
             ctx.bad(rule, aq, 'the parent loop of is_parent_around is left by break (line %d)' % brk_[0].lineno,
